@@ -200,6 +200,39 @@ func (w *World) exec(m *myconn, q string) *result {
 		}
 		return &result{hang: true}
 	}
+	if fa.Kind == "slow" {
+		// the server is slow: the statement takes effect (and is answered) only after the delay
+		d, host := fa.Delay, s.Host
+		out := &result{}
+		out.wait = func() {
+			time.Sleep(d)
+			w.mu.Lock()
+			defer w.mu.Unlock()
+			srv := w.Servers[host]
+			if !srv.Up || w.deadCaller[m.caller] {
+				w.LogLocked(Event{Kind: "sql", Phase: "ret", Who: m.caller, Host: m.host, Class: class, Res: "lost", Err: -1, Mut: mut, Occ: ctx.Occ, ID: id})
+				ctx.Errno, ctx.Note = -1, "lost: the server died before executing the statement"
+				for _, f := range w.AfterStmt {
+					f(w, ctx)
+				}
+				out.errno, out.msg = 2013, "Lost connection"
+				return
+			}
+			for _, f := range w.BeforeStmt {
+				f(w, ctx)
+			}
+			rr := w.apply(m, srv, ctx, id)
+			if inner := rr.wait; inner != nil {
+				rr.wait = nil
+				w.mu.Unlock()
+				inner()
+				w.mu.Lock()
+			}
+			*out = *rr
+			w.finishLocked(m, ctx, out, id, FaultAction{})
+		}
+		return out
+	}
 	for _, f := range w.BeforeStmt {
 		f(w, ctx)
 	}
